@@ -1,11 +1,1451 @@
-//! C20 — not implemented yet (stub).
-use crate::engine::Ctx;
-use serde_json::Value;
+//! C20 — transport properties (entropy scaling) and the parameter estimator.
+//!
+//! Parts
+//! * `transport` : PC-SAFT / SAFT-VRQ Mie records with correlation coefficients x fluid states.
+//! * `loss`      : every `Loss` x scaling factor x residual against the documented closed form.
+//! * `estimator` : every `DataSet` type: predict vs the library call it wraps, targets in the
+//!                 implied unit, zero difference / zero cost for model-generated targets,
+//!                 `DataSet::cost` and `Estimator::cost` composition.
+use crate::engine::{Ctx, Gen, Obs, PanicPolicy, PartCfg};
+use crate::model::*;
+use feos::core::{
+    Contributions, DensityInitialization, PhaseDiagram, PhaseEquilibrium, ReferenceSystem, Residual, SolverOptions, State,
+};
+use feos::estimator as est;
+use feos::estimator::{DataSet, Estimator, Loss, Phase};
+use ndarray::{arr1, Array1};
+use quantity::*;
+use serde::{Deserialize, Serialize};
+use serde_json::{json, Value};
+use std::collections::BTreeMap;
+use std::sync::{Arc, LazyLock, Mutex};
+use typenum::{P2, P3};
 
-pub fn run(_ctx: &Ctx) {
-    panic!("C20: check not implemented yet");
+// ---------------------------------------------------------------------------------------
+// tolerances
+// ---------------------------------------------------------------------------------------
+/// value = reference * exp(ln_reduced): one multiplication and one exp
+const TOL_PROD: f64 = 1e-13;
+/// Chapman-Enskog reference recomputed by the harness in SI (sqrt, powf, exp, sin)
+const TOL_CE: f64 = 1e-11;
+/// mixture with vanishing second component vs pure: x2 = 0 exactly (mixing rules and residual
+/// entropy reduce to the pure fluid up to roundoff) ...
+const TOL_VANISH: f64 = 1e-10;
+/// ... and x2 = 1e-12: deviation x2 * |d ln(eta)/d x2|, tolerance 3e-8 (1 + |ln eta_reduced|)
+/// (logarithmic sensitivity of 1e1..1e4 seen; partner molecules with very different m, coefficients)
+const TOL_VANISH_12: f64 = 3e-8;
+/// equal residual entropy => equal reduced property (second state from a harness bisection)
+const TOL_ISO: f64 = 1e-9;
+/// predict vs the wrapped library call converted by the harness (same deterministic computation)
+const TOL_PRED: f64 = 1e-13;
+/// extrapolated vapour pressure exp(a + b/T): |a|, |b/T| ~ 10-30 amplify the roundoff of ln(pc/p0)
+const TOL_EXTRA: f64 = 1e-10;
+/// relative difference / cost of model-generated targets
+const TOL_ZERO: f64 = 1e-12;
+/// cost composition (loss of the relative difference / N, normalised weights)
+const TOL_COST: f64 = 1e-12;
+/// squared loss vs f^2 rho(r^2/f^2): relative part and absolute floor (in units of f^2) for the
+/// cancellation in sqrt(1+z)-1 and ln(1+z) at small z (one rounding of 1+z: 1.1e-16)
+const TOL_LOSS: f64 = 1e-12;
+const FLOOR_LOSS: f64 = 1e-13;
+
+static WORST: LazyLock<Mutex<BTreeMap<String, (f64, f64)>>> = LazyLock::new(|| Mutex::new(BTreeMap::new()));
+
+fn track(key: &str, frac: f64, tol: f64) {
+    if frac.is_finite() {
+        let mut w = WORST.lock().unwrap();
+        let e = w.entry(key.to_string()).or_insert((0.0, tol));
+        if frac > e.0 {
+            e.0 = frac;
+        }
+    }
 }
 
-pub fn replay(_ctx: &Ctx, _part: &str, _case: &Value) -> bool {
-    panic!("C20: check not implemented yet");
+/// |u-v| <= tol*(max(|u|,|v|) + floor); both NaN counts as equal (NaN policy is part of the contract)
+fn close(obs: &mut Obs, key: &str, what: &str, u: f64, v: f64, tol: f64, floor: f64) -> bool {
+    obs.count();
+    if u.is_nan() && v.is_nan() {
+        return true;
+    }
+    let sc = u.abs().max(v.abs()) + floor;
+    let d = (u - v).abs();
+    let ok = d <= tol * sc;
+    if d > 0.0 && sc > 0.0 {
+        track(key, d / (tol * sc), tol);
+    }
+    if !ok || u.is_nan() || v.is_nan() {
+        obs.fail(format!("{what}: {u:e} vs {v:e} (diff {d:e} > {tol:e} * {sc:e})"));
+        return false;
+    }
+    true
+}
+
+fn close_vec(obs: &mut Obs, key: &str, what: &str, u: &[f64], v: &[f64], tol: f64, floor: f64) -> bool {
+    if u.len() != v.len() {
+        obs.fail(format!("{what}: length {} vs {}", u.len(), v.len()));
+        return false;
+    }
+    let mut ok = true;
+    for (i, (a, b)) in u.iter().zip(v.iter()).enumerate() {
+        ok &= close(obs, key, &format!("{what}[{i}]"), *a, *b, tol, floor);
+    }
+    ok
+}
+
+// ---------------------------------------------------------------------------------------
+// Part 1: transport properties
+// ---------------------------------------------------------------------------------------
+#[derive(Serialize, Deserialize, Clone, Debug)]
+pub struct TCase {
+    /// one-component spec (PcSaft or SaftVRQMie) whose record carries correlation coefficients
+    pub spec: ModelSpec,
+    /// second pure record of the same family with viscosity coefficients
+    pub partner: Value,
+    /// T / T_c in [0.5, 2]
+    pub tau: f64,
+    /// rho / max_density
+    pub f_eta: f64,
+    /// mole fraction of the vanishing second component: 0 or 1e-12
+    pub x2: f64,
+    /// T / T_c of the second state with equal residual entropy
+    pub tau2: f64,
+}
+
+fn gen_coeffs(g: &mut Gen, rec: &mut Value, keep_viscosity: bool) {
+    let mr = &mut rec["model_record"];
+    if !keep_viscosity || mr.get("viscosity").is_none() {
+        mr["viscosity"] = json!([g.range(-2.0, 0.5), g.range(-4.0, -0.5), g.range(-1.0, 0.2), g.range(-0.3, 0.05)]);
+    }
+    mr["diffusion"] = json!([g.range(-0.5, 0.5), g.range(-0.2, 1.0), g.range(0.0, 0.5), g.range(0.0, 0.01), g.range(0.0, 1e-5)]);
+    mr["thermal_conductivity"] = json!([g.range(-1.0, 1.0), g.range(-1.0, 0.0), g.range(-1.0, 1.0), g.range(-0.2, 0.2)]);
+}
+
+fn lin2018() -> &'static Vec<Value> {
+    &POOLS.pcsaft.iter().find(|(f, _)| *f == "loetgeringlin2018.json").unwrap().1
+}
+
+fn gen_transport_record(g: &mut Gen, vrq: bool, k: usize, vrq_file: usize) -> (Value, String) {
+    if vrq {
+        // both components from one file: Feynman-Hibbs orders 1 and 2 cannot be combined
+        let (fname, recs) = &POOLS.vrq[vrq_file];
+        let mut r = recs[g.index(recs.len())].clone();
+        gen_coeffs(g, &mut r, false);
+        (r, format!("vrq:{fname}+random-coefficients"))
+    } else {
+        match g.index(3) {
+            0 => {
+                let recs = lin2018();
+                let mut r = recs[g.index(recs.len())].clone();
+                gen_coeffs(g, &mut r, true);
+                (r, "shipped:loetgeringlin2018".to_string())
+            }
+            1 => {
+                let recs = lin2018();
+                let mut r = recs[g.index(recs.len())].clone();
+                gen_coeffs(g, &mut r, false);
+                (r, "loetgeringlin2018+random-viscosity".to_string())
+            }
+            _ => {
+                let mut r = random_pcsaft_record(g, k);
+                gen_coeffs(g, &mut r, false);
+                (r, "random".to_string())
+            }
+        }
+    }
+}
+
+pub fn decode_transport(g: &mut Gen) -> TCase {
+    let vrq = g.bool(0.3);
+    let vrq_file = g.index(POOLS.vrq.len());
+    let (rec, source) = gen_transport_record(g, vrq, 0, vrq_file);
+    let (partner, _) = gen_transport_record(g, vrq, 1, vrq_file);
+    let mut opts = Opts::default();
+    if !vrq {
+        opts.dq44 = g.bool(0.3);
+    } else {
+        opts.inc_nonadd = !g.bool(0.3);
+    }
+    let spec = ModelSpec {
+        family: if vrq { Family::SaftVRQMie } else { Family::PcSaft },
+        pure: vec![rec],
+        binary: vec![],
+        seg: None,
+        opts,
+        source,
+    };
+    let tau = g.range(0.5, 2.0);
+    let dense = g.bool(0.5);
+    let u = g.unit();
+    let f_eta = if dense { 0.05 + 0.8 * u } else { (1e-5f64.ln() + u * (0.5f64.ln() - 1e-5f64.ln())).exp() };
+    let x2 = if g.bool(0.5) { 1e-12 } else { 0.0 };
+    let tau2 = g.range(0.5, 2.0);
+    TCase { spec, partner, tau, f_eta, x2, tau2 }
+}
+
+fn omega22_neufeld(ts: f64) -> f64 {
+    // Neufeld, Janzen, Aziz 1972
+    1.16145 / ts.powf(0.14874) + 0.52487 / (0.77320 * ts).exp() + 2.16178 / (2.43787 * ts).exp()
+        - 6.435e-4 * ts.powf(0.14874) * (18.0323 / ts.powf(0.76830) - 7.27371).sin()
+}
+
+/// Chapman-Enskog viscosity in Pa s of a pure fluid of molar mass mw (g/mol), sigma (A), eps/k (K)
+fn chapman_enskog_si(t: f64, mw: f64, sigma: f64, eps_k: f64) -> f64 {
+    const KB: f64 = 1.380649e-23;
+    const NAV: f64 = 6.02214076e23;
+    let m = mw * 1e-3 / NAV;
+    let s = sigma * 1e-10;
+    5.0 / 16.0 * (m * KB * t / std::f64::consts::PI).sqrt() / (s * s * omega22_neufeld(t / eps_k))
+}
+
+type TInputs = (Temperature, Volume, Moles<Array1<f64>>);
+
+fn pure_inputs(model: &Arc<Model>, t_k: f64, f_eta: f64) -> Result<TInputs, String> {
+    let moles = arr1(&[1.0]) * MOL;
+    let rho = f_eta * model.max_density(Some(&moles)).map_err(|e| e.to_string())?;
+    Ok((t_k * KELVIN, moles.sum() / rho, moles))
+}
+
+struct Tp {
+    value: f64,
+    reference: f64,
+    ln_reduced: f64,
+}
+
+fn transport<E: Residual + feos::core::EntropyScaling>(s: &State<E>, which: usize) -> Result<Tp, String> {
+    let e = |e: feos::core::EosError| e.to_string();
+    Ok(match which {
+        0 => Tp {
+            value: s.viscosity().map_err(e)?.convert_to(PASCAL * SECOND),
+            reference: s.viscosity_reference().map_err(e)?.convert_to(PASCAL * SECOND),
+            ln_reduced: s.ln_viscosity_reduced().map_err(e)?,
+        },
+        1 => Tp {
+            value: s.diffusion().map_err(e)?.convert_to(METER.powi::<P2>() / SECOND),
+            reference: s.diffusion_reference().map_err(e)?.convert_to(METER.powi::<P2>() / SECOND),
+            ln_reduced: s.ln_diffusion_reduced().map_err(e)?,
+        },
+        _ => Tp {
+            value: s.thermal_conductivity().map_err(e)?.convert_to(WATT / METER / KELVIN),
+            reference: s.thermal_conductivity_reference().map_err(e)?.convert_to(WATT / METER / KELVIN),
+            ln_reduced: s.ln_thermal_conductivity_reduced().map_err(e)?,
+        },
+    })
+}
+
+const TNAMES: [&str; 3] = ["viscosity", "diffusion", "thermal_conductivity"];
+
+pub fn check_transport(case: &TCase, obs: &mut Obs) {
+    let spec = &case.spec;
+    let vrq = spec.family == Family::SaftVRQMie;
+    obs.class(spec.label());
+    obs.class(format!("source:{}", spec.source));
+    let model = match spec.build() {
+        Ok(m) => m,
+        Err(e) => {
+            obs.discard(format!("build:{}", e.chars().take(40).collect::<String>()));
+            return;
+        }
+    };
+    let tc = pure_tc(spec, &model, 0);
+    let tmin = if vrq { 15.0 } else { 0.0 };
+    let t_k = (case.tau * tc).max(tmin);
+    let inputs = match pure_inputs(&model, t_k, case.f_eta) {
+        Ok(i) => i,
+        Err(e) => {
+            obs.discard(format!("inputs:{e}"));
+            return;
+        }
+    };
+    let s = match build_state(&model, &inputs) {
+        Ok(s) => s,
+        Err(e) => {
+            obs.discard(format!("state:{e}"));
+            return;
+        }
+    };
+    let s_res = s.residual_molar_entropy().to_reduced();
+    if !s_res.is_finite() {
+        obs.discard("non-finite residual entropy");
+        return;
+    }
+    let dpdv = s.dp_dv(Contributions::Total).to_reduced();
+    obs.class(if dpdv < 0.0 { "mechanically stable" } else { "inside spinodal" });
+    obs.class(if case.tau < 1.0 { "T<Tc" } else { "T>Tc" });
+    obs.class(if case.f_eta < 0.02 {
+        "gas-like"
+    } else if case.f_eta < 0.3 {
+        "intermediate"
+    } else {
+        "liquid-like"
+    });
+    // ---- value = reference * exp(ln reduced); positive and finite ----
+    let mut pure_vals = vec![];
+    for w in 0..3 {
+        match transport(&s, w) {
+            Err(e) => {
+                obs.fail(format!("{} of a one-component fluid state failed: {e}", TNAMES[w]));
+                pure_vals.push(None);
+            }
+            Ok(tp) => {
+                if !tp.ln_reduced.is_finite() || tp.ln_reduced.abs() > 200.0 {
+                    // s_res/m far outside the range of any fitted correlation (random records with
+                    // |s_res/m| > 10 or positive s_res): exp() leaves the f64 range by construction
+                    // of the polynomial; nothing is asserted for such a state
+                    obs.discard(format!("ln {} reduced beyond +-200", TNAMES[w]));
+                    pure_vals.push(None);
+                    continue;
+                }
+                close(obs, "value = reference*exp(ln reduced)", &format!("{} = reference * exp(ln_{}_reduced)", TNAMES[w], TNAMES[w]), tp.value, tp.reference * tp.ln_reduced.exp(), TOL_PROD, 0.0);
+                // known finding: the thermal-conductivity reference lambda_CE + lambda_ts * alpha
+                // has lambda_ts < 0 for T/(eps m) < 0.3552 and the sum turns negative for long chains
+                let tr_m = t_k / (spec.pure[0]["model_record"]["epsilon_k"].as_f64().unwrap_or(f64::NAN) * spec.pure[0]["model_record"]["m"].as_f64().unwrap_or(1.0));
+                let tc_ref_signature = w == 2 && tr_m < 0.0167141 / 0.0470581;
+                let pos_v = tp.value.is_finite() && tp.value > 0.0;
+                let pos_r = tp.reference.is_finite() && tp.reference > 0.0;
+                obs.count();
+                if !pos_v || !pos_r {
+                    let msg = format!("{} = {:e} (reference {:e}, ln reduced {:e}) is not positive and finite at T/Tc={}, rho/rho_max={}", TNAMES[w], tp.value, tp.reference, tp.ln_reduced, case.tau, case.f_eta);
+                    if tc_ref_signature && tp.reference.is_finite() && tp.reference <= 0.0 {
+                        obs.known_or_fail("C20/thermal-conductivity-reference-negative", msg);
+                    } else {
+                        obs.fail(msg);
+                    }
+                }
+                pure_vals.push(Some(tp));
+            }
+        }
+    }
+    // ---- the reduced properties are the documented correlation functions of s = s_res/(R m)
+    //      (Loetgering-Lin & Gross 2018; Hopp, Mele & Gross 2018; Hopp & Gross 2019), evaluated by
+    //      the harness from the record's coefficients and the state's residual entropy ----
+    {
+        let mrec = &spec.pure[0]["model_record"];
+        let m = mrec["m"].as_f64().unwrap_or(1.0);
+        let sr = s_res / m;
+        let coef = |key: &str| -> Vec<f64> { mrec[key].as_array().map(|a| a.iter().map(|v| v.as_f64().unwrap()).collect()).unwrap_or_default() };
+        let (cv, cd, ct) = (coef("viscosity"), coef("diffusion"), coef("thermal_conductivity"));
+        let terms: [Vec<f64>; 3] = [
+            vec![cv[0], cv[1] * sr, cv[2] * sr * sr, cv[3] * sr * sr * sr],
+            vec![cd[0], cd[1] * sr, -cd[2] * (1.0 - sr.exp()) * sr * sr, -cd[3] * sr.powi(4), -cd[4] * sr.powi(8)],
+            vec![ct[0], ct[1] * sr, ct[2] * (1.0 - sr.exp()), ct[3] * sr * sr],
+        ];
+        for w in 0..3 {
+            if let Some(tp) = &pure_vals[w] {
+                let val: f64 = terms[w].iter().sum();
+                let abs: f64 = terms[w].iter().map(|v| v.abs()).sum();
+                obs.count();
+                let d = (tp.ln_reduced - val).abs();
+                track("ln reduced = correlation(s_res/m)", d / (1e-12 * (abs + 1.0)), 1e-12);
+                if !(d <= 1e-12 * (abs + 1.0)) {
+                    obs.fail(format!("ln_{}_reduced = {:e} vs correlation polynomial {:e} at s_res/(R m) = {:e}", TNAMES[w], tp.ln_reduced, val, sr));
+                }
+            }
+        }
+    }
+    // ---- PC-SAFT: the viscosity reference is the Chapman-Enskog viscosity of the segment
+    //      parameters (Loetgering-Lin & Gross 2018), recomputed in SI ----
+    let mr = &spec.pure[0]["model_record"];
+    let mw = spec.pure[0]["molarweight"].as_f64().unwrap_or(f64::NAN);
+    if !vrq {
+        if let Some(tp) = &pure_vals[0] {
+            let ce = chapman_enskog_si(t_k, mw, mr["sigma"].as_f64().unwrap(), mr["epsilon_k"].as_f64().unwrap());
+            close(obs, "viscosity reference = Chapman-Enskog", "viscosity_reference [Pa s] vs Chapman-Enskog (Neufeld collision integral)", tp.reference, ce, TOL_CE, 0.0);
+        }
+    }
+    // ---- same transport values through the EquationOfState wrapper ----
+    if let Ok(ig) = dippr_model(&[0]) {
+        let eos = full_model(ig, model.clone());
+        if let Ok(sw) = build_state(&eos, &inputs) {
+            for w in 0..3 {
+                if let (Some(tp), Ok(tw)) = (&pure_vals[w], transport(&sw, w)) {
+                    close(obs, "wrapper", &format!("{} through EquationOfState", TNAMES[w]), tw.value, tp.value, 1e-13, 0.0);
+                }
+            }
+        }
+    }
+    // ---- mixture with a vanishing second component (viscosity is the only mixture property) ----
+    {
+        let mut bspec = spec.clone();
+        bspec.pure.push(case.partner.clone());
+        match bspec.build() {
+            Err(e) => obs.discard(format!("binary build:{}", e.chars().take(40).collect::<String>())),
+            Ok(bm) => {
+                let n1 = inputs.2.get(0);
+                let moles = Moles::from_vec(vec![n1, n1 * case.x2]);
+                match State::new_nvt(&bm, inputs.0, inputs.1, &moles) {
+                    Err(e) => obs.discard(format!("binary state:{e}")),
+                    Ok(sb) => {
+                        obs.class(format!("x2={:e}", case.x2));
+                        if let Some(tp) = &pure_vals[0] {
+                            match transport(&sb, 0) {
+                                Err(e) => obs.fail(format!("viscosity of the binary with x2={:e} failed: {e}", case.x2)),
+                                Ok(tb) => {
+                                    // x2 = 1e-12: deviation x2 * d ln(eta)/d x2; the logarithmic sensitivity grows
+                                    // with |ln eta_reduced| (s = s_res/m_mix enters with powers up to 3)
+                                    let (key, tv) = if case.x2 == 0.0 { ("vanishing component x2=0", TOL_VANISH) } else { ("vanishing component x2=1e-12", TOL_VANISH_12 * (1.0 + tp.ln_reduced.abs())) };
+                                    close(obs, key, "viscosity(x2 -> 0) vs pure", tb.value, tp.value, tv, 0.0);
+                                    close(obs, key, "viscosity_reference(x2 -> 0) vs pure", tb.reference, tp.reference, tv, 0.0);
+                                    close(obs, key, "ln_viscosity_reduced(x2 -> 0) vs pure", tb.ln_reduced, tp.ln_reduced, tv, 1.0);
+                                    if tb.ln_reduced.abs() <= 200.0 {
+                                        close(obs, "value = reference*exp(ln reduced)", "binary: viscosity = reference * exp(ln reduced)", tb.value, tb.reference * tb.ln_reduced.exp(), TOL_PROD, 0.0);
+                                    }
+                                }
+                            }
+                        }
+                        // diffusion / thermal conductivity are defined for pure fluids only: clean Err
+                        obs.ensure(sb.diffusion().is_err() && sb.thermal_conductivity().is_err(), || {
+                            "diffusion / thermal_conductivity of a two-component model did not return Err".to_string()
+                        });
+                    }
+                }
+            }
+        }
+    }
+    // ---- two states with equal residual entropy have equal reduced properties ----
+    let t2_k = (case.tau2 * tc).max(tmin);
+    let mut partner_found = false;
+    if (t2_k - t_k).abs() > 1e-3 * t_k {
+        let moles = arr1(&[1.0]) * MOL;
+        let rho_max = model.max_density(Some(&moles)).map(|r| r.to_reduced()).unwrap_or(f64::NAN);
+        let sres_at = |f: f64| -> Option<f64> {
+            let rho = Density::from_reduced(f * rho_max);
+            State::new_nvt(&model, t2_k * KELVIN, moles.sum() / rho, &moles)
+                .ok()
+                .map(|st| st.residual_molar_entropy().to_reduced())
+                .filter(|v| v.is_finite())
+        };
+        // bisection in ln f on [1e-9, 0.95]; s_res decreases with density for these models
+        let (mut lo, mut hi) = (1e-9f64.ln(), 0.95f64.ln());
+        if let (Some(flo), Some(fhi)) = (sres_at(lo.exp()), sres_at(hi.exp())) {
+            if (flo - s_res) * (fhi - s_res) < 0.0 {
+                let lo_above = flo > s_res;
+                for _ in 0..200 {
+                    let mid = 0.5 * (lo + hi);
+                    if mid == lo || mid == hi {
+                        break;
+                    }
+                    match sres_at(mid.exp()) {
+                        Some(fm) => {
+                            if (fm > s_res) == lo_above {
+                                lo = mid;
+                            } else {
+                                hi = mid;
+                            }
+                        }
+                        None => break,
+                    }
+                }
+                let f2 = (0.5 * (lo + hi)).exp();
+                let rho = Density::from_reduced(f2 * rho_max);
+                if let Ok(s2) = State::new_nvt(&model, t2_k * KELVIN, moles.sum() / rho, &moles) {
+                    let ds = (s2.residual_molar_entropy().to_reduced() - s_res).abs();
+                    if ds <= 1e-12 * (s_res.abs() + 1e-3) {
+                        partner_found = true;
+                        for w in 0..3 {
+                            if let (Some(tp), Ok(t2)) = (&pure_vals[w], transport(&s2, w)) {
+                                if !(t2.ln_reduced.abs() <= 200.0) {
+                                    continue;
+                                }
+                                close(obs, "equal s_res => equal reduced property", &format!("ln_{}_reduced at equal residual entropy (T {t_k:.2} K vs {t2_k:.2} K)", TNAMES[w]), t2.ln_reduced, tp.ln_reduced, TOL_ISO, 1.0);
+                                close(obs, "value = reference*exp(ln reduced)", &format!("{} = reference * exp(ln reduced) (second state)", TNAMES[w]), t2.value, t2.reference * t2.ln_reduced.exp(), TOL_PROD, 0.0);
+                            }
+                        }
+                    } else {
+                        obs.inconclusive("bisection on residual entropy did not reach 1e-12");
+                    }
+                }
+            } else {
+                obs.class("no state of equal s_res at T2");
+            }
+        }
+    }
+    if partner_found {
+        obs.class("equal-entropy partner");
+    }
+    if pure_vals.iter().all(|v| v.is_some()) && s_res.abs() > 1e-6 {
+        obs.nontrivial();
+    }
+}
+
+// ---------------------------------------------------------------------------------------
+// Part 2: loss functions
+// ---------------------------------------------------------------------------------------
+#[derive(Serialize, Deserialize, Clone, Copy, Debug, PartialEq)]
+pub enum LossSpec {
+    Linear,
+    SoftL1(f64),
+    Huber(f64),
+    Cauchy(f64),
+    Arctan(f64),
+}
+
+impl LossSpec {
+    fn lib(&self) -> Loss {
+        match *self {
+            LossSpec::Linear => Loss::Linear,
+            LossSpec::SoftL1(f) => Loss::softl1(f),
+            LossSpec::Huber(f) => Loss::huber(f),
+            LossSpec::Cauchy(f) => Loss::cauchy(f),
+            LossSpec::Arctan(f) => Loss::arctan(f),
+        }
+    }
+    fn f(&self) -> f64 {
+        match *self {
+            LossSpec::Linear => 1.0,
+            LossSpec::SoftL1(f) | LossSpec::Huber(f) | LossSpec::Cauchy(f) | LossSpec::Arctan(f) => f,
+        }
+    }
+    /// documented closed form: cost^2 = f^2 rho(z), z = r^2/f^2 (evaluated without cancellation)
+    fn square(&self, r: f64) -> f64 {
+        let f = self.f();
+        let z = (r / f) * (r / f);
+        let rho = match self {
+            LossSpec::Linear => z,
+            LossSpec::SoftL1(_) => 2.0 * z / ((1.0 + z).sqrt() + 1.0),
+            LossSpec::Huber(_) => {
+                if z <= 1.0 {
+                    z
+                } else {
+                    2.0 * z.sqrt() - 1.0
+                }
+            }
+            LossSpec::Cauchy(_) => z.ln_1p(),
+            LossSpec::Arctan(_) => z.atan(),
+        };
+        f * f * rho
+    }
+    fn name(&self) -> &'static str {
+        match self {
+            LossSpec::Linear => "Linear",
+            LossSpec::SoftL1(_) => "SoftL1",
+            LossSpec::Huber(_) => "Huber",
+            LossSpec::Cauchy(_) => "Cauchy",
+            LossSpec::Arctan(_) => "Arctan",
+        }
+    }
+}
+
+fn gen_loss(g: &mut Gen) -> LossSpec {
+    let k = g.index(5);
+    let f = g.log_range(1e-3, 1e2);
+    match k {
+        0 => LossSpec::Linear,
+        1 => LossSpec::SoftL1(f),
+        2 => LossSpec::Huber(f),
+        3 => LossSpec::Cauchy(f),
+        _ => LossSpec::Arctan(f),
+    }
+}
+
+/// |lib|^2 vs f^2 rho(z)
+fn check_loss_value(obs: &mut Obs, l: &LossSpec, r: f64, lib: f64) {
+    obs.count();
+    let f = l.f();
+    let (a, b) = (lib * lib, l.square(r));
+    let allowed = TOL_LOSS * a.abs().max(b.abs()) + FLOOR_LOSS * f * f;
+    let d = (a - b).abs();
+    if d > 0.0 {
+        track(&format!("loss {}", l.name()), d / allowed, TOL_LOSS);
+    }
+    if !(d <= allowed) {
+        obs.fail(format!("{:?}: apply({r:e})^2 = {a:e} vs f^2 rho(r^2/f^2) = {b:e} (diff {d:e} > {allowed:e})", l));
+    }
+}
+
+#[derive(Serialize, Deserialize, Clone, Debug)]
+pub struct LCase {
+    pub loss: LossSpec,
+    pub r: Vec<f64>,
+}
+
+pub fn decode_loss(g: &mut Gen) -> LCase {
+    let loss = gen_loss(g);
+    let n = 1 + g.index(24);
+    let f = loss.f();
+    let r = (0..n)
+        .map(|_| {
+            let m = match g.index(3) {
+                // around the Huber switch |r| = f
+                0 => f * g.range(0.5, 2.0),
+                // the full range of the quantifier
+                1 => g.log_range(1e-6, 1e3),
+                _ => g.range(0.0, 1e3),
+            };
+            if g.bool(0.5) {
+                -m
+            } else {
+                m
+            }
+        })
+        .collect();
+    LCase { loss, r }
+}
+
+pub fn check_loss(case: &LCase, obs: &mut Obs) {
+    obs.class(case.loss.name());
+    let mut arr = Array1::from_vec(case.r.clone());
+    case.loss.lib().apply(&mut arr);
+    obs.ensure(arr.len() == case.r.len(), || "Loss::apply changed the length".to_string());
+    let f = case.loss.f();
+    let (mut below, mut above) = (false, false);
+    for (r, v) in case.r.iter().zip(arr.iter()) {
+        check_loss_value(obs, &case.loss, *r, *v);
+        if r.abs() < f {
+            below = true;
+        } else {
+            above = true;
+        }
+    }
+    if below && above {
+        obs.class("both sides of |r| = f");
+        obs.nontrivial();
+    }
+    obs.class(if f < 0.1 {
+        "f:1e-3..0.1"
+    } else if f < 3.0 {
+        "f:0.1..3"
+    } else {
+        "f:3..100"
+    });
+}
+
+// ---------------------------------------------------------------------------------------
+// Part 3: data sets and the estimator
+// ---------------------------------------------------------------------------------------
+#[derive(Serialize, Deserialize, Clone, Debug)]
+pub enum DsSpec {
+    /// temperatures as fractions of T_c (may exceed 1), optional critical-temperature guess (fraction)
+    VaporPressure { tr: Vec<f64>, extrapolate: bool, tc_guess: Option<f64> },
+    LiquidDensity { tr: Vec<f64>, p_bar: Vec<f64> },
+    EquilibriumLiquidDensity { tr: Vec<f64> },
+    /// which: 0 viscosity, 1 diffusion, 2 thermal conductivity; phase: None | per point 0 vapor / 1 liquid
+    Transport { which: usize, tr: Vec<f64>, p_bar: Vec<f64>, phase: Option<Vec<u8>> },
+    /// binary: T as fraction of the lower T_c, liquid composition; (p, y) from the model's bubble point,
+    /// multiplied by (1+dp), (1+dy)
+    ChemicalPotential { tr: Vec<f64>, x: Vec<f64>, dp: Vec<f64>, dy: Vec<f64> },
+    /// binary: bubble (liquid) or dew (vapor) pressure; pressure guess = model value * guess factor
+    VlePressure { tr: Vec<f64>, x: Vec<f64>, vapor: bool, guess: Vec<f64> },
+    /// binary phase diagram at constant T (fraction of the lower T_c) or p (bar). Data point i is
+    /// (tp_i, x_i, y_i): the point at parameter `s` on segment `seg` of the model's bubble and dew
+    /// polylines (which share their tp vertices), shifted by (dx_liquid, dx_vapor, relative dtp);
+    /// `liquid` / `vapor`: which mole-fraction columns are handed to the data set
+    DiagramT { tr: f64, npoints: usize, points: Vec<(usize, f64, f64, f64, f64)>, liquid: bool, vapor: bool },
+    DiagramP { p_bar: f64, npoints: usize, points: Vec<(usize, f64, f64, f64, f64)>, liquid: bool, vapor: bool },
+}
+
+impl DsSpec {
+    fn name(&self) -> String {
+        match self {
+            DsSpec::VaporPressure { extrapolate, .. } => format!("VaporPressure(extrapolate={extrapolate})"),
+            DsSpec::LiquidDensity { .. } => "LiquidDensity".into(),
+            DsSpec::EquilibriumLiquidDensity { .. } => "EquilibriumLiquidDensity".into(),
+            DsSpec::Transport { which, phase, .. } => format!("{}(phase {})", ["Viscosity", "Diffusion", "ThermalConductivity"][*which], if phase.is_some() { "given" } else { "None" }),
+            DsSpec::ChemicalPotential { .. } => "BinaryVleChemicalPotential".into(),
+            DsSpec::VlePressure { vapor, .. } => format!("BinaryVlePressure({})", if *vapor { "Vapor" } else { "Liquid" }),
+            DsSpec::DiagramT { .. } => "BinaryPhaseDiagram(T)".into(),
+            DsSpec::DiagramP { .. } => "BinaryPhaseDiagram(p)".into(),
+        }
+    }
+}
+
+#[derive(Serialize, Deserialize, Clone, Debug)]
+pub struct DsEntry {
+    pub ds: DsSpec,
+    pub weight: f64,
+    pub loss: LossSpec,
+    /// relative perturbation of the model-generated targets (data sets with explicit targets)
+    pub delta: Vec<f64>,
+}
+
+#[derive(Serialize, Deserialize, Clone, Debug)]
+pub struct ECase {
+    pub spec: ModelSpec,
+    pub sets: Vec<DsEntry>,
+}
+
+const ALKANES: [&str; 8] = ["propane", "butane", "pentane", "hexane", "heptane", "octane", "isobutane", "isopentane"];
+
+fn gross2001(name: &str) -> Value {
+    POOLS.pcsaft[0].1.iter().find(|r| r["identifier"]["name"].as_str() == Some(name)).unwrap_or_else(|| panic!("{name} not in gross2001")).clone()
+}
+
+fn gen_points(g: &mut Gen, lo: f64, hi: f64, n: usize) -> Vec<f64> {
+    (0..n).map(|_| g.range(lo, hi)).collect()
+}
+
+fn gen_diagram_points(g: &mut Gen, npoints: usize) -> Vec<(usize, f64, f64, f64, f64)> {
+    let n = 1 + g.index(6);
+    let exact = g.bool(0.4);
+    (0..n)
+        .map(|_| {
+            (
+                g.index(npoints.saturating_sub(3).max(1)),
+                g.range(0.15, 0.85),
+                if exact { 0.0 } else { g.range(-0.05, 0.05) },
+                if exact { 0.0 } else { g.range(-0.05, 0.05) },
+                if exact { 0.0 } else { g.range(-0.05, 0.05) },
+            )
+        })
+        .collect()
+}
+
+fn gen_columns(g: &mut Gen) -> (bool, bool) {
+    match g.index(3) {
+        0 => (true, true),
+        1 => (true, false),
+        _ => (false, true),
+    }
+}
+
+pub fn decode_estimator(g: &mut Gen) -> ECase {
+    let binary = g.bool(0.3);
+    let nsets = 1 + g.index(3);
+    let mut opts = Opts::default();
+    let spec;
+    if binary {
+        let i = g.index(ALKANES.len());
+        let mut j = g.index(ALKANES.len() - 1);
+        if j >= i {
+            j += 1;
+        }
+        let pure = vec![gross2001(ALKANES[i]), gross2001(ALKANES[j])];
+        let mut bin = vec![];
+        if let Some(b) = shipped_binary(&POOLS.pcsaft_binary, &pure[0], &pure[1]) {
+            bin.push((0, 1, b));
+        } else if g.bool(0.5) {
+            bin.push((0, 1, json!({"k_ij": g.range(-0.03, 0.03)})));
+        }
+        spec = ModelSpec { family: Family::PcSaft, pure, binary: bin, seg: None, opts, source: "shipped:gross2001 alkane pair".into() };
+    } else {
+        let mut rec = match g.index(2) {
+            0 => {
+                let recs = lin2018();
+                recs[g.index(recs.len())].clone()
+            }
+            _ => {
+                let recs = &POOLS.pcsaft[0].1;
+                recs[g.index(recs.len())].clone()
+            }
+        };
+        gen_coeffs(g, &mut rec, true);
+        opts.dq44 = g.bool(0.2);
+        spec = ModelSpec { family: Family::PcSaft, pure: vec![rec], binary: vec![], seg: None, opts, source: "shipped:loetgeringlin2018|gross2001".into() };
+    }
+    let mut sets = vec![];
+    for _ in 0..nsets {
+        let n = 1 + g.index(20);
+        let ds = if binary {
+            match g.index(5) {
+                0 => {
+                    let n = n.min(6);
+                    // exact: (p, y) are the model's own bubble point => zero chemical-potential residual
+                    let exact = g.bool(0.4);
+                    let z = |v: Vec<f64>| -> Vec<f64> { if exact { vec![0.0; v.len()] } else { v } };
+                    DsSpec::ChemicalPotential { tr: gen_points(g, 0.6, 0.9, n), x: gen_points(g, 0.05, 0.95, n), dp: z(gen_points(g, -0.03, 0.03, n)), dy: z(gen_points(g, -0.05, 0.05, n)) }
+                }
+                1 | 2 => {
+                    let n = n.min(8);
+                    DsSpec::VlePressure { tr: gen_points(g, 0.6, 0.9, n), x: gen_points(g, 0.05, 0.95, n), vapor: g.bool(0.5), guess: gen_points(g, 0.8, 1.25, n) }
+                }
+                3 => {
+                    let npoints = 8 + g.index(18);
+                    let (liquid, vapor) = gen_columns(g);
+                    DsSpec::DiagramT { tr: g.range(0.6, 0.9), npoints, points: gen_diagram_points(g, npoints), liquid, vapor }
+                }
+                _ => {
+                    let npoints = 8 + g.index(18);
+                    let (liquid, vapor) = gen_columns(g);
+                    DsSpec::DiagramP { p_bar: g.log_range(1.0, 8.0), npoints, points: gen_diagram_points(g, npoints), liquid, vapor }
+                }
+            }
+        } else {
+            match g.index(7) {
+                0 => DsSpec::VaporPressure { tr: gen_points(g, 0.5, 1.25, n), extrapolate: false, tc_guess: if g.bool(0.5) { Some(g.range(0.8, 1.2)) } else { None } },
+                1 => DsSpec::VaporPressure { tr: gen_points(g, 0.5, 1.25, n), extrapolate: true, tc_guess: if g.bool(0.5) { Some(g.range(0.8, 1.2)) } else { None } },
+                2 => DsSpec::LiquidDensity { tr: gen_points(g, 0.5, 0.95, n), p_bar: (0..n).map(|_| g.log_range(0.05, 500.0)).collect() },
+                3 => DsSpec::EquilibriumLiquidDensity { tr: gen_points(g, 0.5, 1.05, n) },
+                k => {
+                    let phase = if g.bool(0.5) { Some((0..n).map(|_| g.index(2) as u8).collect()) } else { None };
+                    DsSpec::Transport { which: k - 4, tr: gen_points(g, 0.6, 1.6, n), p_bar: (0..n).map(|_| g.log_range(0.5, 300.0)).collect(), phase }
+                }
+            }
+        };
+        let nd = 40;
+        let delta = (0..nd)
+            .map(|_| {
+                let v = g.log_range(1e-4, 0.5);
+                if g.bool(0.5) {
+                    -v
+                } else {
+                    v
+                }
+            })
+            .collect();
+        sets.push(DsEntry { ds, weight: g.log_range(1e-3, 1e3), loss: gen_loss(g), delta });
+    }
+    ECase { spec, sets }
+}
+
+type DS = Arc<dyn DataSet<Model>>;
+/// what a data set should predict (harness-side wrapped library calls), or why it must fail
+type Oracle = Result<Vec<f64>, String>;
+
+fn es(e: feos::core::EosError) -> String {
+    e.to_string()
+}
+
+fn init_of(p: u8) -> (Phase, DensityInitialization) {
+    if p == 0 {
+        (Phase::Vapor, DensityInitialization::Vapor)
+    } else {
+        (Phase::Liquid, DensityInitialization::Liquid)
+    }
+}
+
+/// Build (a) the library call results in the data set's implied unit and (b) a constructor that
+/// makes the data set for given targets (in the implied unit, as plain numbers).
+#[allow(clippy::type_complexity)]
+fn realise(
+    ds: &DsSpec,
+    model: &Arc<Model>,
+    tcs: &[f64],
+    obs: &mut Obs,
+) -> Result<(Oracle, Box<dyn Fn(&[f64]) -> DS>, bool, Option<Vec<f64>>), String> {
+    let one = Moles::from_reduced(arr1(&[1.0]));
+    let so = SolverOptions::default();
+    match ds.clone() {
+        DsSpec::VaporPressure { tr, extrapolate, tc_guess } => {
+            let tc = tcs[0];
+            let t: Vec<f64> = tr.iter().map(|r| r * tc).collect();
+            let guess = tc_guess.map(|f| f * tc * KELVIN);
+            // --- the documented procedure, recomputed in SI ---
+            let tmax = guess.unwrap_or(t.iter().cloned().fold(f64::MIN, f64::max) * KELVIN);
+            let oracle: Oracle = (|| {
+                let cp = State::critical_point(model, None, Some(tmax), so).or_else(|_| State::critical_point(model, None, None, so)).map_err(es)?;
+                let tck = cp.temperature.convert_to(KELVIN);
+                let pc = cp.pressure(Contributions::Total).convert_to(PASCAL);
+                let t0 = 0.9 * tck;
+                let p0 = PhaseEquilibrium::pure(model, t0 * KELVIN, None, so).map_err(es)?.vapor().pressure(Contributions::Total).convert_to(PASCAL);
+                let b = (pc / p0).ln() / (1.0 / tck - 1.0 / t0);
+                let a = pc.ln() - b / tck;
+                Ok(t.iter()
+                    .map(|&ti| match PhaseEquilibrium::vapor_pressure(model, ti * KELVIN)[0] {
+                        Some(p) => p.convert_to(PASCAL),
+                        None => {
+                            if extrapolate {
+                                (a + b / ti).exp()
+                            } else {
+                                f64::NAN
+                            }
+                        }
+                    })
+                    .collect())
+            })();
+            if let Ok(v) = &oracle {
+                let above = t.iter().zip(v.iter()).filter(|(ti, _)| **ti > tc).count();
+                if above > 0 {
+                    obs.class(if extrapolate { "vapor pressure: extrapolated points above T_c" } else { "vapor pressure: NaN points above T_c" });
+                }
+            }
+            let tt = t.clone();
+            // targets are handed over in bar: the data set must store them in Pa
+            let mk = move |target_pa: &[f64]| -> DS {
+                let target = Array1::from_vec(target_pa.iter().map(|p| p * 1e-5).collect()) * BAR;
+                Arc::new(est::VaporPressure::new(target, Array1::from_vec(tt.clone()) * KELVIN, extrapolate, guess, None))
+            };
+            Ok((oracle, Box::new(mk), true, None))
+        }
+        DsSpec::LiquidDensity { tr, p_bar } => {
+            let t: Vec<f64> = tr.iter().map(|r| r * tcs[0]).collect();
+            let oracle: Oracle = Ok(t
+                .iter()
+                .zip(p_bar.iter())
+                .map(|(&ti, &pi)| match State::new_npt(model, ti * KELVIN, pi * BAR, &one, DensityInitialization::Liquid) {
+                    Ok(s) => s.mass_density().convert_to(KILOGRAM / METER.powi::<P3>()),
+                    Err(_) => f64::NAN,
+                })
+                .collect());
+            let (tt, pp) = (t.clone(), p_bar.clone());
+            // targets handed over in g/cm^3
+            let mk = move |target: &[f64]| -> DS {
+                let target = Array1::from_vec(target.iter().map(|r| r * 1e-3).collect()) * (GRAM / (CENTI * METER).powi::<P3>());
+                Arc::new(est::LiquidDensity::new(target, Array1::from_vec(tt.clone()) * KELVIN, Array1::from_vec(pp.clone()) * BAR))
+            };
+            Ok((oracle, Box::new(mk), true, None))
+        }
+        DsSpec::EquilibriumLiquidDensity { tr } => {
+            let t: Vec<f64> = tr.iter().map(|r| r * tcs[0]).collect();
+            let oracle: Oracle = Ok(t
+                .iter()
+                .map(|&ti| match PhaseEquilibrium::pure(model, ti * KELVIN, None, so) {
+                    Ok(v) => v.liquid().mass_density().convert_to(KILOGRAM / METER.powi::<P3>()),
+                    Err(_) => f64::NAN,
+                })
+                .collect());
+            let tt = t.clone();
+            let mk = move |target: &[f64]| -> DS {
+                let target = Array1::from_vec(target.to_vec()) * (KILOGRAM / METER.powi::<P3>());
+                Arc::new(est::EquilibriumLiquidDensity::new(target, Array1::from_vec(tt.clone()) * KELVIN, None))
+            };
+            Ok((oracle, Box::new(mk), true, None))
+        }
+        DsSpec::Transport { which, tr, p_bar, phase } => {
+            let t: Vec<f64> = tr.iter().map(|r| r * tcs[0]).collect();
+            let oracle: Oracle = t
+                .iter()
+                .zip(p_bar.iter())
+                .enumerate()
+                .map(|(i, (&ti, &pi))| {
+                    let init = match &phase {
+                        None => DensityInitialization::None,
+                        Some(ph) => init_of(ph[i]).1,
+                    };
+                    let s = State::new_npt(model, ti * KELVIN, pi * BAR, &one, init).map_err(es)?;
+                    // implied units: mPa s, cm^2/s, W/m/K
+                    Ok(match which {
+                        0 => s.viscosity().map_err(es)?.convert_to(PASCAL * SECOND) * 1e3,
+                        1 => s.diffusion().map_err(es)?.convert_to(METER.powi::<P2>() / SECOND) * 1e4,
+                        _ => s.thermal_conductivity().map_err(es)?.convert_to(WATT / METER / KELVIN),
+                    })
+                })
+                .collect();
+            let (tt, pp) = (t.clone(), p_bar.clone());
+            let ph: Option<Vec<Phase>> = phase.as_ref().map(|v| v.iter().map(|&p| init_of(p).0).collect());
+            let mk = move |target: &[f64]| -> DS {
+                let (tk, pb) = (Array1::from_vec(tt.clone()) * KELVIN, Array1::from_vec(pp.clone()) * BAR);
+                match which {
+                    // targets handed over in Pa s / m^2/s / W/m/K
+                    0 => Arc::new(est::Viscosity::new(Array1::from_vec(target.iter().map(|v| v * 1e-3).collect()) * (PASCAL * SECOND), tk, pb, ph.as_ref())),
+                    1 => Arc::new(est::Diffusion::new(Array1::from_vec(target.iter().map(|v| v * 1e-4).collect()) * (METER.powi::<P2>() / SECOND), tk, pb, ph.as_ref())),
+                    _ => Arc::new(est::ThermalConductivity::new(Array1::from_vec(target.to_vec()) * (WATT / METER / KELVIN), tk, pb, ph.as_ref())),
+                }
+            };
+            Ok((oracle, Box::new(mk), true, None))
+        }
+        DsSpec::ChemicalPotential { tr, x, dp, dy } => {
+            let tl = tcs[0].min(tcs[1]);
+            let n = tr.len();
+            let mut t = vec![];
+            let mut p = vec![];
+            let mut y = vec![];
+            for i in 0..n {
+                let ti = tr[i] * tl;
+                let vle = PhaseEquilibrium::bubble_point(model, ti * KELVIN, &arr1(&[x[i], 1.0 - x[i]]), None, None, Default::default()).map_err(|e| format!("input generation (bubble point): {e}"))?;
+                t.push(ti);
+                p.push(vle.vapor().pressure(Contributions::Total).convert_to(PASCAL) * (1.0 + dp[i]));
+                y.push((vle.vapor().molefracs[0] * (1.0 + dy[i])).clamp(1e-6, 1.0 - 1e-6));
+            }
+            if dp.iter().zip(dy.iter()).all(|(a, b)| *a == 0.0 && *b == 0.0) {
+                obs.class("chemical potential: exact equilibrium inputs");
+            }
+            // formula of the data set recomputed from public getters (reduced units, 500 K scale)
+            let oracle: Oracle = (|| {
+                let mut out = vec![];
+                for i in 0..n {
+                    let l = State::new_npt(model, t[i] * KELVIN, p[i] * PASCAL, &Moles::from_reduced(arr1(&[x[i], 1.0 - x[i]])), DensityInitialization::Liquid).map_err(es)?;
+                    let v = State::new_npt(model, t[i] * KELVIN, p[i] * PASCAL, &Moles::from_reduced(arr1(&[y[i], 1.0 - y[i]])), DensityInitialization::Vapor).map_err(es)?;
+                    let (ml, mv) = (l.residual_chemical_potential().to_reduced(), v.residual_chemical_potential().to_reduced());
+                    let (rl, rv) = (l.partial_density.to_reduced(), v.partial_density.to_reduced());
+                    for k in 0..2 {
+                        out.push(1.0 + (ml[k] - mv[k] + t[i] * (rl[k] / rv[k]).ln()) / 500.0);
+                    }
+                }
+                Ok(out)
+            })();
+            let (tt, pp, xx, yy) = (t.clone(), p.clone(), x.clone(), y.clone());
+            let mk = move |_target: &[f64]| -> DS {
+                Arc::new(est::BinaryVleChemicalPotential::new(Array1::from_vec(tt.clone()) * KELVIN, Array1::from_vec(pp.clone()) * PASCAL, Array1::from_vec(xx.clone()), Array1::from_vec(yy.clone())))
+            };
+            Ok((oracle, Box::new(mk), false, None))
+        }
+        DsSpec::VlePressure { tr, x, vapor, guess } => {
+            let tl = tcs[0].min(tcs[1]);
+            let t: Vec<f64> = tr.iter().map(|r| r * tl).collect();
+            // pressure guesses: model value (no guess) times the guess factor
+            let mut pg = vec![];
+            for i in 0..t.len() {
+                let z = arr1(&[x[i], 1.0 - x[i]]);
+                let vle = if vapor {
+                    PhaseEquilibrium::dew_point(model, t[i] * KELVIN, &z, None, None, Default::default())
+                } else {
+                    PhaseEquilibrium::bubble_point(model, t[i] * KELVIN, &z, None, None, Default::default())
+                }
+                .map_err(|e| format!("input generation (bubble/dew point): {e}"))?;
+                pg.push(vle.vapor().pressure(Contributions::Total).convert_to(PASCAL) * guess[i]);
+            }
+            let oracle: Oracle = t
+                .iter()
+                .enumerate()
+                .map(|(i, &ti)| {
+                    let z = arr1(&[x[i], 1.0 - x[i]]);
+                    let vle = if vapor {
+                        PhaseEquilibrium::dew_point(model, ti * KELVIN, &z, Some(pg[i] * PASCAL), None, Default::default())
+                    } else {
+                        PhaseEquilibrium::bubble_point(model, ti * KELVIN, &z, Some(pg[i] * PASCAL), None, Default::default())
+                    }
+                    .map_err(es)?;
+                    Ok(vle.vapor().pressure(Contributions::Total).convert_to(PASCAL))
+                })
+                .collect();
+            // the data set has no separate target: target == the given pressure (in Pa). The
+            // pressure doubles as initial value of the solver, so it is handed over in Pa (bitwise
+            // the same initial value as in the harness-side call).
+            let (tt, xx) = (t.clone(), x.clone());
+            let mk = move |target_pa: &[f64]| -> DS {
+                Arc::new(est::BinaryVlePressure::new(
+                    Array1::from_vec(tt.clone()) * KELVIN,
+                    Array1::from_vec(target_pa.to_vec()) * PASCAL,
+                    Array1::from_vec(xx.clone()),
+                    if vapor { Phase::Vapor } else { Phase::Liquid },
+                ))
+            };
+            Ok((oracle, Box::new(mk), true, Some(pg.clone())))
+        }
+        DsSpec::DiagramT { tr, npoints, points, liquid, vapor } => {
+            let t = tr * tcs[0].min(tcs[1]);
+            let dia = PhaseDiagram::binary_vle(model, t * KELVIN, Some(npoints), None, Default::default()).map_err(|e| format!("input generation (binary_vle): {e}"))?;
+            let xl: Vec<f64> = dia.liquid().molefracs().column(0).to_vec();
+            let xv: Vec<f64> = dia.vapor().molefracs().column(0).to_vec();
+            let tp: Vec<f64> = dia.vapor().iter().map(|s| s.pressure(Contributions::Total).convert_to(PASCAL)).collect();
+            let (oracle, pts) = diagram_oracle(&xl, &xv, &tp, &points, liquid, vapor, obs);
+            let mk = move |_t: &[f64]| -> DS {
+                Arc::new(est::BinaryPhaseDiagram::new(
+                    t * KELVIN,
+                    Array1::from_vec(pts.tp.clone()) * PASCAL,
+                    if liquid { Some(Array1::from_vec(pts.x.clone())) } else { None },
+                    if vapor { Some(Array1::from_vec(pts.y.clone())) } else { None },
+                    Some(npoints),
+                ))
+            };
+            Ok((oracle, Box::new(mk), false, None))
+        }
+        DsSpec::DiagramP { p_bar, npoints, points, liquid, vapor } => {
+            let dia = PhaseDiagram::binary_vle(model, p_bar * BAR, Some(npoints), None, Default::default()).map_err(|e| format!("input generation (binary_vle): {e}"))?;
+            let xl: Vec<f64> = dia.liquid().molefracs().column(0).to_vec();
+            let xv: Vec<f64> = dia.vapor().molefracs().column(0).to_vec();
+            let tp: Vec<f64> = dia.vapor().iter().map(|s| s.temperature.convert_to(KELVIN)).collect();
+            let (oracle, pts) = diagram_oracle(&xl, &xv, &tp, &points, liquid, vapor, obs);
+            let mk = move |_t: &[f64]| -> DS {
+                Arc::new(est::BinaryPhaseDiagram::new(
+                    p_bar * BAR,
+                    Array1::from_vec(pts.tp.clone()) * KELVIN,
+                    if liquid { Some(Array1::from_vec(pts.x.clone())) } else { None },
+                    if vapor { Some(Array1::from_vec(pts.y.clone())) } else { None },
+                    Some(npoints),
+                ))
+            };
+            Ok((oracle, Box::new(mk), false, None))
+        }
+    }
+}
+
+#[derive(Clone, Default)]
+struct Pts {
+    tp: Vec<f64>,
+    x: Vec<f64>,
+    y: Vec<f64>,
+}
+
+/// Experimental points (tp_i, x_i, y_i) for a binary phase diagram (on / near the model's
+/// polylines) and the expected prediction (liquid pairs first, then vapor pairs): for a point ON
+/// an interior part of a segment the distance is zero (prediction (1, 1)); for shifted points
+/// NaN marks "not asserted by value" (structural check only: the predicted point lies on the
+/// polyline).
+fn diagram_oracle(xl: &[f64], xv: &[f64], tp: &[f64], points: &[(usize, f64, f64, f64, f64)], liquid: bool, vapor: bool, obs: &mut Obs) -> (Oracle, Pts) {
+    let mut pts = Pts::default();
+    let nseg = tp.len().saturating_sub(1);
+    let mut exact = vec![];
+    for &(seg, s, dxl, dxv, dtp) in points {
+        if nseg == 0 {
+            continue;
+        }
+        let k = seg % nseg;
+        let x = xl[k] + s * (xl[k + 1] - xl[k]);
+        let y = xv[k] + s * (xv[k + 1] - xv[k]);
+        let t = tp[k] + s * (tp[k + 1] - tp[k]);
+        // degenerate segments carry no interior point
+        let dt_rel = ((tp[k + 1] - tp[k]) / tp[k]).abs();
+        let ok_l = (xl[k + 1] - xl[k]).abs() > 1e-9 || dt_rel > 1e-9;
+        let ok_v = (xv[k + 1] - xv[k]).abs() > 1e-9 || dt_rel > 1e-9;
+        let (xe, ye) = ((x + dxl).clamp(1e-6, 1.0 - 1e-6), (y + dxv).clamp(1e-6, 1.0 - 1e-6));
+        pts.tp.push(t * (1.0 + dtp));
+        pts.x.push(xe);
+        pts.y.push(ye);
+        exact.push((dtp == 0.0 && dxl == 0.0 && xe == x && ok_l, dtp == 0.0 && dxv == 0.0 && ye == y && ok_v));
+    }
+    let mut out = vec![];
+    for (col, on) in [(0usize, liquid), (1usize, vapor)] {
+        if !on {
+            continue;
+        }
+        for e in &exact {
+            let is_exact = if col == 0 { e.0 } else { e.1 };
+            if is_exact {
+                out.extend([1.0, 1.0]);
+                obs.class("diagram: point on the model's polyline");
+            } else {
+                out.extend([f64::NAN, f64::NAN]);
+                obs.class("diagram: shifted point");
+            }
+        }
+    }
+    (Ok(out), pts)
+}
+
+/// distance of (x, y) to the polyline (xs, ys)
+fn polyline_distance(xs: &[f64], ys: &[f64], x: f64, y: f64) -> f64 {
+    let mut best = f64::INFINITY;
+    for k in 0..xs.len() - 1 {
+        let (dx, dy) = (xs[k + 1] - xs[k], ys[k + 1] - ys[k]);
+        let l2 = dx * dx + dy * dy;
+        let t = if l2 > 0.0 { (((x - xs[k]) * dx + (y - ys[k]) * dy) / l2).clamp(0.0, 1.0) } else { 0.0 };
+        let (px, py) = (xs[k] + t * dx, ys[k] + t * dy);
+        best = best.min(((px - x).powi(2) + (py - y).powi(2)).sqrt());
+    }
+    best
+}
+
+fn losses_for(f: f64) -> Vec<LossSpec> {
+    vec![LossSpec::Linear, LossSpec::SoftL1(f), LossSpec::Huber(f), LossSpec::Cauchy(f), LossSpec::Arctan(f)]
+}
+
+pub fn check_estimator(case: &ECase, obs: &mut Obs) {
+    let spec = &case.spec;
+    obs.class(if spec.n() == 1 { "pure model" } else { "binary model" });
+    let model = match spec.build() {
+        Ok(m) => m,
+        Err(e) => {
+            obs.discard(format!("build:{}", e.chars().take(40).collect::<String>()));
+            return;
+        }
+    };
+    let tcs: Vec<f64> = (0..spec.n()).map(|i| pure_tc(spec, &model, i)).collect();
+    let mut data: Vec<DS> = vec![];
+    let mut weights = vec![];
+    let mut losses = vec![];
+    let mut expected_cost: Vec<Vec<f64>> = vec![];
+    let mut expected_pred: Vec<Vec<f64>> = vec![];
+    let mut distinct_inputs = false;
+    for entry in &case.sets {
+        let name = entry.ds.name();
+        obs.class(format!("dataset:{name}"));
+        let (oracle, mk, explicit_targets, fixed) = match realise(&entry.ds, &model, &tcs, obs) {
+            Ok(r) => r,
+            Err(e) => {
+                obs.discard(format!("{name}: {}", e.chars().take(60).collect::<String>()));
+                continue;
+            }
+        };
+        // ---- (1) predict equals the wrapped library call in the implied unit ----
+        let npts = match &oracle {
+            Ok(v) => v.len(),
+            Err(_) => 1,
+        };
+        // probe targets: the oracle itself where finite, 1 otherwise
+        let probe_targets: Vec<f64> = match (&fixed, &oracle) {
+            (Some(f), _) => f.clone(),
+            (None, Ok(v)) => v.iter().map(|p| if p.is_finite() { *p } else { 1.0 }).collect(),
+            (None, Err(_)) => vec![1.0; entry_len(&entry.ds)],
+        };
+        let probe = mk(&probe_targets);
+        let pred = probe.predict(&model);
+        let pred = match (pred, &oracle) {
+            (Err(e), Err(_)) => {
+                obs.class(format!("{name}: library call and predict both fail"));
+                let _ = e;
+                continue;
+            }
+            (Err(e), Ok(_)) => {
+                obs.fail(format!("{name}: predict failed ({e}) although every wrapped library call succeeded"));
+                continue;
+            }
+            (Ok(p), Err(e)) => {
+                obs.fail(format!("{name}: predict returned {:?} although the wrapped library call fails ({e})", p.to_vec()));
+                continue;
+            }
+            (Ok(p), Ok(_)) => p.to_vec(),
+        };
+        let oracle = oracle.unwrap();
+        let is_diagram = matches!(entry.ds, DsSpec::DiagramT { .. } | DsSpec::DiagramP { .. });
+        if !is_diagram {
+            let tol = match entry.ds {
+                DsSpec::VaporPressure { extrapolate: true, .. } => TOL_EXTRA,
+                // formula recomputed in reduced units with a different operation order
+                DsSpec::ChemicalPotential { .. } => 1e-11,
+                _ => TOL_PRED,
+            };
+            // chemical-potential residual: 1 + dmu/(500 K R) can cancel, compare on the scale 1
+            let floor = if matches!(entry.ds, DsSpec::ChemicalPotential { .. }) { 1.0 } else { 0.0 };
+            close_vec(obs, &format!("predict {name}"), &format!("{name}: predict vs library call"), &pred, &oracle, tol, floor);
+        } else {
+            if pred.len() != oracle.len() {
+                obs.fail(format!("{name}: predict has {} entries, expected {}", pred.len(), oracle.len()));
+                continue;
+            }
+            for (i, (p, o)) in pred.iter().zip(oracle.iter()).enumerate() {
+                if o.is_finite() {
+                    close(obs, &format!("predict {name}"), &format!("{name}: point on the model's own diagram, prediction[{i}]"), *p, *o, 1e-9, 0.0);
+                } else {
+                    obs.ensure(p.is_finite(), || format!("{name}: prediction[{i}] = {p} for a point near the diagram"));
+                }
+            }
+            check_diagram_structure(obs, &entry.ds, &model, &tcs, &pred);
+        }
+        // ---- (2) target(), datapoints() in the implied unit ----
+        let tgt = probe.target().to_vec();
+        obs.ensure(probe.datapoints() == tgt.len(), || format!("{name}: datapoints() {} vs target length {}", probe.datapoints(), tgt.len()));
+        if explicit_targets {
+            close_vec(obs, "target unit", &format!("{name}: stored target in the implied unit"), &tgt, &probe_targets, 1e-13, 0.0);
+        } else {
+            obs.ensure(tgt.iter().all(|v| *v == 1.0) && tgt.len() == pred.len(), || format!("{name}: target is not a vector of ones of the prediction's length"));
+        }
+        let _ = npts;
+        // ---- (3) model-generated targets: zero relative difference, zero cost for every loss ----
+        let all_finite = pred.iter().all(|p| p.is_finite());
+        let exact_inputs = match &entry.ds {
+            DsSpec::ChemicalPotential { dp, dy, .. } => dp.iter().zip(dy.iter()).all(|(a, b)| *a == 0.0 && *b == 0.0),
+            DsSpec::DiagramT { .. } | DsSpec::DiagramP { .. } => oracle.iter().all(|o| o.is_finite()) && !oracle.is_empty(),
+            DsSpec::VlePressure { guess, .. } => guess.iter().all(|g| *g == 1.0),
+            _ => true,
+        };
+        if all_finite && !pred.is_empty() && (explicit_targets || exact_inputs) && !matches!(entry.ds, DsSpec::VlePressure { .. }) {
+            let exact = mk(&pred);
+            // inputs generated by a solver (bubble point / diagram) carry the solver tolerance
+            let tz = if explicit_targets { TOL_ZERO } else { 1e-6 };
+            match exact.relative_difference(&model) {
+                Err(e) => obs.fail(format!("{name}: relative_difference with model-generated targets failed: {e}")),
+                Ok(rd) => {
+                    for (i, r) in rd.iter().enumerate() {
+                        obs.count();
+                        track(&format!("zero relative difference ({})", if explicit_targets { "explicit targets" } else { "solver-generated inputs" }), r.abs() / tz, tz);
+                        if !(r.abs() <= tz) {
+                            obs.fail(format!("{name}: relative_difference[{i}] = {r:e} for a target generated by the model"));
+                        }
+                    }
+                    let mard = exact.mean_absolute_relative_difference(&model).unwrap_or(f64::NAN);
+                    obs.ensure(mard.abs() <= tz, || format!("{name}: mean_absolute_relative_difference = {mard:e} for model-generated targets"));
+                    for l in losses_for(entry.loss.f()) {
+                        match exact.cost(&model, l.lib()) {
+                            Err(e) => obs.fail(format!("{name}: cost failed: {e}")),
+                            Ok(c) => {
+                                for (i, ci) in c.iter().enumerate() {
+                                    obs.count();
+                                    // loss(r)/N with |r| <= tz: every loss is bounded by |r|
+                                    if !(ci.abs() <= tz) {
+                                        obs.fail(format!("{name}: cost[{i}] = {ci:e} under {:?} for model-generated targets", l));
+                                    }
+                                }
+                            }
+                        }
+                    }
+                    obs.class(format!("zero-cost:{name}"));
+                }
+            }
+        }
+        // ---- (4) perturbed targets: relative difference, cost = loss(rel diff)/N ----
+        let final_ds: DS = if explicit_targets && !matches!(entry.ds, DsSpec::VlePressure { .. }) {
+            let targets: Vec<f64> = pred.iter().enumerate().map(|(i, p)| if p.is_finite() { p * (1.0 + entry.delta[i % entry.delta.len()]) } else { 1.0 }).collect();
+            mk(&targets)
+        } else {
+            probe.clone()
+        };
+        let tgt = final_ds.target().to_vec();
+        // BinaryVlePressure: the given pressure is target and initial value at once — predictions
+        // are re-derived through predict (checked against the library call above)
+        let pred2 = match final_ds.predict(&model) {
+            Ok(p) => p.to_vec(),
+            Err(e) => {
+                obs.fail(format!("{name}: second predict failed: {e}"));
+                continue;
+            }
+        };
+        if !matches!(entry.ds, DsSpec::VlePressure { .. }) {
+            close_vec(obs, "predict independent of targets", &format!("{name}: predict does not depend on the targets"), &pred2, &pred, 1e-14, 0.0);
+        }
+        let rd_ref: Vec<f64> = pred2.iter().zip(tgt.iter()).map(|(p, t)| (p - t) / t).collect();
+        match final_ds.relative_difference(&model) {
+            Err(e) => {
+                obs.fail(format!("{name}: relative_difference failed: {e}"));
+                continue;
+            }
+            Ok(rd) => {
+                close_vec(obs, "relative difference", &format!("{name}: relative_difference = (prediction - target)/target"), &rd.to_vec(), &rd_ref, TOL_COST, 1e-3);
+            }
+        }
+        let fin: Vec<f64> = rd_ref.iter().cloned().filter(|v| v.is_finite()).collect();
+        let mard_ref = if fin.is_empty() { 0.0 } else { fin.iter().map(|v| v.abs()).sum::<f64>() / fin.len() as f64 };
+        if let Ok(m) = final_ds.mean_absolute_relative_difference(&model) {
+            close(obs, "mean abs rel diff", &format!("{name}: mean_absolute_relative_difference (finite entries)"), m, mard_ref, 1e-12, 1e-6);
+        } else {
+            obs.fail(format!("{name}: mean_absolute_relative_difference failed"));
+        }
+        let n = rd_ref.len() as f64;
+        match (final_ds.cost(&model, entry.loss.lib()), final_ds.relative_difference(&model)) {
+            (Ok(c), Ok(rd)) => {
+                let c: Vec<f64> = c.to_vec();
+                obs.ensure(c.len() == rd.len(), || format!("{name}: cost has {} entries for {} data points", c.len(), rd.len()));
+                // N * |cost_i| = sqrt(f^2 rho(r_i^2/f^2)) (magnitudes: the linear branches keep the sign)
+                for (ci, ri) in c.iter().zip(rd.iter()) {
+                    if ri.is_nan() {
+                        obs.ensure(ci.is_nan(), || format!("{name}: cost {ci} for a NaN relative difference"));
+                    } else {
+                        check_loss_value(obs, &entry.loss, *ri, ci * n);
+                    }
+                }
+                expected_cost.push(c);
+            }
+            (Err(e), _) | (_, Err(e)) => {
+                obs.fail(format!("{name}: cost failed: {e}"));
+                continue;
+            }
+        }
+        if pred2.len() >= 3 {
+            distinct_inputs = true;
+        }
+        expected_pred.push(pred2);
+        data.push(final_ds);
+        weights.push(entry.weight);
+        losses.push(entry.loss);
+    }
+    // ---- (5) Estimator: cost = concatenation of w_i/sum(w) * DataSet::cost_i ----
+    if data.is_empty() {
+        return;
+    }
+    let wsum: f64 = weights.iter().sum();
+    let estimator = Estimator::new(data.clone(), weights.clone(), losses.iter().map(|l| l.lib()).collect());
+    match estimator.cost(&model) {
+        Err(e) => obs.fail(format!("Estimator::cost failed although every DataSet::cost succeeded: {e}")),
+        Ok(c) => {
+            let expect: Vec<f64> = expected_cost.iter().zip(weights.iter()).flat_map(|(c, w)| c.iter().map(move |ci| ci * w / wsum)).collect();
+            let scale = expect.iter().fold(0.0f64, |a, b| a.max(b.abs()));
+            close_vec(obs, "Estimator::cost", "Estimator::cost = concat(w_i / sum w * DataSet::cost_i)", &c.to_vec(), &expect, TOL_COST, 1e-3 * scale);
+        }
+    }
+    match estimator.predict(&model) {
+        Err(e) => obs.fail(format!("Estimator::predict failed: {e}")),
+        Ok(p) => {
+            obs.ensure(p.len() == expected_pred.len(), || "Estimator::predict: wrong number of data sets".to_string());
+            for (a, b) in p.iter().zip(expected_pred.iter()) {
+                close_vec(obs, "Estimator::predict", "Estimator::predict = DataSet::predict", &a.to_vec(), b, 1e-14, 0.0);
+            }
+        }
+    }
+    obs.ensure(estimator.datasets().len() == data.len(), || "Estimator::datasets length".to_string());
+    let wmax = weights.iter().cloned().fold(f64::MIN, f64::max);
+    let wmin = weights.iter().cloned().fold(f64::MAX, f64::min);
+    if weights.len() > 1 && wmax / wmin > 1.01 {
+        obs.class("non-uniform weights");
+    }
+    if distinct_inputs {
+        obs.nontrivial();
+    }
+    obs.class(format!("{} data sets", data.len()));
+}
+
+fn entry_len(ds: &DsSpec) -> usize {
+    match ds {
+        DsSpec::VaporPressure { tr, .. } | DsSpec::LiquidDensity { tr, .. } | DsSpec::EquilibriumLiquidDensity { tr } | DsSpec::Transport { tr, .. } | DsSpec::VlePressure { tr, .. } => tr.len(),
+        DsSpec::ChemicalPotential { tr, .. } => 2 * tr.len(),
+        DsSpec::DiagramT { points, liquid, vapor, .. } | DsSpec::DiagramP { points, liquid, vapor, .. } => 2 * points.len() * (*liquid as usize + *vapor as usize),
+    }
+}
+
+/// every predicted point (x0, y0 * tp_exp) of a BinaryPhaseDiagram lies on the model's polyline
+fn check_diagram_structure(obs: &mut Obs, ds: &DsSpec, model: &Arc<Model>, tcs: &[f64], pred: &[f64]) {
+    let (xl, xv, tp, points, liquid, vapor) = match ds {
+        DsSpec::DiagramT { tr, npoints, points, liquid, vapor } => {
+            let t = tr * tcs[0].min(tcs[1]);
+            let Ok(dia) = PhaseDiagram::binary_vle(model, t * KELVIN, Some(*npoints), None, Default::default()) else { return };
+            let tp: Vec<f64> = dia.vapor().iter().map(|s| s.pressure(Contributions::Total).convert_to(PASCAL)).collect();
+            (dia.liquid().molefracs().column(0).to_vec(), dia.vapor().molefracs().column(0).to_vec(), tp, points.clone(), *liquid, *vapor)
+        }
+        DsSpec::DiagramP { p_bar, npoints, points, liquid, vapor } => {
+            let Ok(dia) = PhaseDiagram::binary_vle(model, *p_bar * BAR, Some(*npoints), None, Default::default()) else { return };
+            let tp: Vec<f64> = dia.vapor().iter().map(|s| s.temperature.convert_to(KELVIN)).collect();
+            (dia.liquid().molefracs().column(0).to_vec(), dia.vapor().molefracs().column(0).to_vec(), tp, points.clone(), *liquid, *vapor)
+        }
+        _ => return,
+    };
+    // re-create the experimental points exactly as in `diagram_oracle`
+    let mut dummy = Obs::default();
+    let (_, pts) = diagram_oracle(&xl, &xv, &tp, &points, liquid, vapor, &mut dummy);
+    let mut k = 0;
+    for (xs, xe, on) in [(&xl, &pts.x, liquid), (&xv, &pts.y, vapor)] {
+        if !on {
+            continue;
+        }
+        for (i, xe) in xe.iter().enumerate() {
+            if k + 1 >= pred.len() {
+                return;
+            }
+            let (x0, y0) = (pred[k] + xe - 1.0, pred[k + 1]);
+            // in the data set's scaled coordinates (x, tp/tp_exp)
+            let ys: Vec<f64> = tp.iter().map(|t| t / pts.tp[i]).collect();
+            let d = polyline_distance(xs, &ys, x0, y0);
+            obs.count();
+            track("diagram: predicted point on polyline", d / 1e-9, 1e-9);
+            if !(d <= 1e-9) {
+                obs.fail(format!("BinaryPhaseDiagram: predicted point ({x0}, {y0}) for data point ({xe}, 1) is {d:e} away from the model's phase boundary"));
+            }
+            k += 2;
+        }
+    }
+}
+
+// ---------------------------------------------------------------------------------------
+const PART_T: PartCfg = PartCfg {
+    name: "transport",
+    genome_len: 96,
+    cases_quick: 5000,
+    cases_thorough: 500_000,
+    panic: PanicPolicy::Violation,
+};
+
+const PART_L: PartCfg = PartCfg {
+    name: "loss",
+    genome_len: 64,
+    cases_quick: 5000,
+    cases_thorough: 500_000,
+    panic: PanicPolicy::Violation,
+};
+
+const PART_E: PartCfg = PartCfg {
+    name: "estimator",
+    genome_len: 400,
+    cases_quick: 1500,
+    cases_thorough: 40_000,
+    panic: PanicPolicy::Count,
+};
+
+pub fn run(ctx: &Ctx) {
+    ctx.set_rule("transport: proptest genomes -> (PC-SAFT record: loetgeringlin2018 with its shipped viscosity coefficients | loetgeringlin2018 with random viscosity coefficients | random physical record; always random diffusion and thermal-conductivity coefficients; DQ35/DQ44) or (SAFT-VRQ Mie record of aasen2019 / aasen2019_fh2 / hammer2023 with random coefficients; T >= 15 K) x T/Tc in [0.5,2] x rho/rho_max (half uniform 0.05-0.85, half log-uniform 1e-5-0.5) x second record for the binary with x2 in {0, 1e-12} x second temperature for the state of equal residual entropy (harness bisection on residual_molar_entropy). Non-trivial: all three properties evaluated and |s_res| > 1e-6 k_B. loss: Loss kind x scaling factor log-uniform 1e-3..1e2 x 1-24 residuals (around |r| = f, log-uniform 1e-6..1e3, uniform 0..1e3, either sign); non-trivial: residuals on both sides of |r| = f. estimator: pure model (loetgeringlin2018 / gross2001 record + random transport coefficients) with 1-3 data sets out of VaporPressure(+-extrapolate, T up to 1.25 Tc, optional T_c guess), LiquidDensity, EquilibriumLiquidDensity, Viscosity, Diffusion, ThermalConductivity (phase None / given), or a gross2001 alkane pair with 1-3 of BinaryVleChemicalPotential, BinaryVlePressure (Liquid / Vapor), BinaryPhaseDiagram (T / p specification); 1-20 points; weights log-uniform 1e-3..1e3; loss of any kind; targets = model prediction x (1 + delta), |delta| log-uniform 1e-4..0.5. Non-trivial: at least one data set with >= 3 points. Distinct by hash of the canonical case JSON.");
+    ctx.assume("transport: value vs reference*exp(ln reduced) 1e-13; ln reduced vs the documented correlation functions (viscosity A+Bs+Cs^2+Ds^3, diffusion A+Bs-C(1-e^s)s^2-Ds^4-Es^8, thermal conductivity A+Bs+C(1-e^s)+Ds^2, s = s_res/(R m)) evaluated by the harness 1e-12 of sum|terms|+1; PC-SAFT viscosity reference vs the Chapman-Enskog viscosity with the Neufeld collision integral recomputed by the harness in SI 1e-11 (extension of the stated property: pins the unit of the reference); vanishing second component 1e-10 for x2 = 0 and 3e-8 (1+|ln eta_reduced|) for x2 = 1e-12; states whose |ln reduced| exceeds 200 (random records with |s_res/m| > 10 or positive s_res, outside any fitted range: exp() overflows by construction) are discarded and counted; equal residual entropy 1e-9 after a bisection converged to 1e-12; diffusion / thermal conductivity exist for one-component models only (clean Err for two components is asserted)");
+    ctx.assume("loss: |apply(r)|^2 vs f^2 rho(r^2/f^2) with rho evaluated without cancellation; 1e-12 relative + 1e-13 f^2 absolute (sqrt(1+z)-1 and ln(1+z) lose the digits of z below 1e-16 in the library's direct evaluation)");
+    ctx.assume("estimator: predict vs wrapped library call 1e-13 (extrapolated vapour pressure 1e-10); NaN / Err policies of the data sets are mirrored (NaN for failing points of VaporPressure, LiquidDensity, EquilibriumLiquidDensity; Err of the whole prediction for transport and binary data sets); targets handed over in bar, g/cm3, Pa s, m2/s, kPa and compared in the implied units Pa, kg/m3, mPa s, cm2/s, Pa; zero relative difference 1e-12 for explicit targets, 1e-6 where the *inputs* come from a bubble-point / phase-diagram solver (BinaryVleChemicalPotential, BinaryPhaseDiagram); BinaryPhaseDiagram: points on the model's own polyline predict (1,1) within 1e-9, every predicted point lies on the polyline (1e-9); library results used as inputs are trusted (C04/C05)");
+    // VERIF_PARTS=transport,loss restricts a (calibration) run to some parts; default: all
+    let parts = std::env::var("VERIF_PARTS").unwrap_or_default();
+    let on = |p: &str| parts.is_empty() || parts.split(',').any(|q| q == p);
+    if on("transport") {
+        ctx.run_sampled(&PART_T, &decode_transport, &check_transport);
+    }
+    if on("loss") {
+        ctx.run_sampled(&PART_L, &decode_loss, &check_loss);
+    }
+    if on("estimator") {
+        ctx.run_sampled(&PART_E, &decode_estimator, &check_estimator);
+    }
+    let w = WORST.lock().unwrap();
+    let m: BTreeMap<String, Value> = w
+        .iter()
+        .map(|(k, (r, tol))| (k.clone(), json!({"worst_fraction_of_tolerance": r, "tolerance": tol, "margin": if *r > 0.0 { 1.0 / r } else { f64::INFINITY }})))
+        .collect();
+    ctx.extra("worst_ratio", json!(m));
+}
+
+pub fn replay(ctx: &Ctx, part: &str, case: &Value) -> bool {
+    match part {
+        "loss" => ctx.replay_case::<LCase>(case, &check_loss),
+        "estimator" => ctx.replay_case::<ECase>(case, &check_estimator),
+        _ => ctx.replay_case::<TCase>(case, &check_transport),
+    }
 }
